@@ -141,6 +141,7 @@ struct Ctx
     bool a_blocked_in_frame = false;
     Camera* other = nullptr;       // a second camera of the same driver: what happens there must not show on the first
     bool other_running = false, other_trigger = false;
+    int run_fibers_lo = 0, run_fibers_hi = 0; // fibers created by the latest camera_start of the first camera
     size_t a_runs_at_call = 0;     // number of runs begun when caller A entered its current frame call
     bool a_stale_failure = false;  // a frame call of A that began before the latest start has failed (see c18_fail)
     int a_frames_in_run = 0, b_triggers_in_run = 0;
@@ -404,10 +405,13 @@ do_start(Ctx& x)
     x.runs.push_back(r); // before the call: a frame may be delivered as soon as the camera runs
     x.running = true;
     x.a_frames_in_run = x.b_triggers_in_run = 0;
+    const int fibers_before = vsim::nfibers();
     if (camera_start(x.cam) != Device_Ok) {
         C18_FAIL(x, "start-failed", "err", "camera_start failed");
         return;
     }
+    x.run_fibers_lo = fibers_before; // the threads this start created (caller B is the only one who creates any)
+    x.run_fibers_hi = vsim::nfibers();
     x.started_runs++;
     if (x.runs.size() >= 2) {
         x.c.cls(CL_TWO_RUNS);
@@ -633,6 +637,12 @@ do_stop(Ctx& x, bool graceful)
     camera_stop(x.cam);
     if (!x.runs.empty())
         x.runs.back().stopped = true;
+    // "stop ... returns": and when it has, the threads of that run are gone (whoever else was stopping the
+    // camera at the same time, e.g. the HAL after a frame call that failed because of this very stop)
+    for (int f = x.run_fibers_lo; f < x.run_fibers_hi && !x.c.ended; ++f)
+        if (vsim::info(f).st != vsim::DONE)
+            C18_FAIL(x, "streamer-alive-after-stop", "at-return", "camera_stop returned while the camera thread this run started is still %s", vsim::state_name(vsim::info(f).st));
+    x.run_fibers_lo = x.run_fibers_hi = 0;
 }
 
 void
